@@ -56,6 +56,14 @@ def select(prop, tier):
 
 
 def _tree_hash(root):
+    """Content hash of the copy; also makes cargo's mtime-based freshness check content-based: a file whose content is
+    the one recorded at the previous build in this target directory keeps the recorded mtime, anything else is 'now'
+    (otherwise a file restored with an OLD mtime - git stash, rsync -a, cp -p - would not be recompiled and the unit
+    would judge a stale binary)."""
+    rec_path = os.path.join(TARGET_DIR, "verif-mtimes.json")
+    rec = read_json(rec_path, {}) or {}
+    new = {}
+    now = time.time()
     h = []
     for d, dirs, files in os.walk(root):
         dirs[:] = sorted(x for x in dirs if x not in ("target", ".git"))
@@ -63,7 +71,15 @@ def _tree_hash(root):
             p = os.path.join(d, fn)
             if os.path.islink(p):
                 continue
-            h.append(os.path.relpath(p, root) + ":" + sha256_file(p))
+            rel = os.path.relpath(p, root)
+            sha = sha256_file(p)
+            h.append(rel + ":" + sha)
+            old = rec.get(rel)
+            mt = old[1] if old and old[0] == sha else now
+            os.utime(p, (mt, mt))
+            new[rel] = [sha, mt]
+    os.makedirs(TARGET_DIR, exist_ok=True)
+    write_json(rec_path, new)
     return sha256_bytes("\n".join(h).encode())
 
 
